@@ -117,16 +117,17 @@ func (hc *httpCache) Get() (status Status, response *HTTPResponse) {
 	verifPoint("get.done", hc, int(status), done != nil)
 	hc.mu.Unlock()
 	// 如果done不为空，表示需要等待确认当前请求状态
-	if done != nil {
+	for done != nil {
 		// TODO 后续再考虑是否需要添加timeout（proxy部分有超时，因此暂时可不添加)
 		verifPoint("get.recv", hc)
 		<-done
 		verifPoint("get.woken", hc)
-		// 完成后重新获取当前状态与响应
-		// 此时状态只可能是hit for pass 或者 hit
-		// 而此两种状态的数据缓存均不会立即失效，因此可以从hc中获取
-		status = hc.status
-		response = hc.response
+		// 完成后需要在锁内重新获取当前状态与响应，
+		// 因为被唤醒到重新执行之间缓存有可能已过期（并被其它请求重新设置为fetching），
+		// 不加锁直接读取会导致同一个key有多个请求同时转发至后端
+		hc.mu.Lock()
+		status, done, response = hc.get()
+		hc.mu.Unlock()
 	}
 	return
 }
